@@ -81,4 +81,4 @@ Print Assumptions C04_frag1_in_frag2.
 Example C04_example_weighted :
   frag2 ex3_flat = true /\ frag1 ex3_flat = false /\ length (keys_of ex3_flat) = 96 /\
   length (accepted_keys ex3_flat) = 32 /\ check_sound ex3_flat = true.
-Proof. split; [apply ex3_frag|]. split; [apply ex3_frag|]. split; [apply ex3_keys|]. split; [apply ex3_keys | apply ex3_checks]. Qed.
+Proof. split; [exact ex3_frag2|]. split; [exact ex3_frag1|]. split; [exact ex3_nkeys|]. split; [exact ex3_nacc | exact ex3_sound]. Qed.
